@@ -240,6 +240,40 @@ fn check_ast(ast: &Ast, st: &mut Stats) {
         }
     }
 
+    // 1a. a copy of the tree lists the same identifiers with the same classes: `clone()`, and `clone_from`
+    // into trees that held other expressions with identifiers of other classes at the same places (round 12)
+    {
+        let mut copies: Vec<(String, ENode)> = vec![("a clone of the tree".into(), tree.clone())];
+        for used in ["a = 1", "f ( x )", "x + y", "( a , b = 2 ; c )", "1", "g ( a = f ( b ) , c )"] {
+            if let Ok(mut t3) = build_operator_tree::<evalexpr::DefaultNumericTypes>(used) {
+                t3.clone_from(&tree);
+                copies.push((format!("the tree of `{}` overwritten by clone_from", used), t3));
+            }
+        }
+        for (label, t3) in &copies {
+            for (name, keep, f, _) in its {
+                let expect = names(&occ, keep);
+                st.evaluations += 1;
+                match guarded(|| f(t3)) {
+                    Ok(g) if g == expect => {},
+                    Ok(g) => {
+                        st.violation(mk("iterator-mismatch/copied-tree", format!("{} yields {:?}", name, expect), format!("{:?} on {}", g, label)));
+                        return;
+                    },
+                    Err(p) => {
+                        st.violation(mk("panic", format!("{} yields {:?}", name, expect), format!("{}: panic at {}: {}", label, p.location, p.message)));
+                        return;
+                    },
+                }
+            }
+            if node_to_nt(t3) != want {
+                st.violation(mk("iterator-mismatch/copied-tree", want.show(), format!("{} is {}", label, node_to_nt(t3).show())));
+                return;
+            }
+        }
+        st.count("copied-trees-compared");
+    }
+
     // 1b. every way of consuming an iterator agrees with next(): after k calls of next(), the rest
     // obtained through fold / for_each / last / count / nth is the matching suffix
     {
@@ -658,7 +692,7 @@ pub fn run(cfg: &Cfg) -> Report {
     Report {
         property: ID,
         level: "exploration",
-        rule: format!("every AST with <= {k} operator nodes over the full operator alphabet (identifiers in every leaf, assignment-target and function position, named in source order; ASTs with <= 2 operators also with their tokens separated by each of the 25 white-space characters, by an inline comment and by a line comment: same identifier lists) plus {nseq} sequence-shaped ASTs (`,`/`;` skeletons with <= {seq_n} separators over 13 element shapes incl. absent elements, `()`, nested sequences, and every skeleton of up to three more separators over plain variables, assignments and calls); per AST: 5 immutable + 5 mutable iterators against the occurrence list of the AST, every consumption style (for_each/fold, last, count, nth after 0..3 calls of next()) against next(), unknown-identifier errors against the lists (also after renaming all functions, or all variables, to names with namespaces, dots, underscores, upper-case and non-ASCII letters, digits and underscores only (`_0`, `0_`), a trailing `e`, `#`, `$`, with builtins enabled and disabled), and every swap of two variable names / two function names / a name with a fresh name / a name with a name in use in the other namespace applied through the mutable iterators and to the context. Plus scaling families (sums, products, tuples, call arguments, call chains, assignment chains, prefix chains, statement sequences with n identifiers for every n in 1..20 and up to 129 / 1..40 and up to 400). Non-trivial = at least two identifier occurrences; distinct by normalised tree"),
+        rule: format!("every AST with <= {k} operator nodes over the full operator alphabet (identifiers in every leaf, assignment-target and function position, named in source order; the five iterators also on a clone of the tree and on six used trees overwritten by clone_from; ASTs with <= 2 operators also with their tokens separated by each of the 25 white-space characters, by an inline comment and by a line comment: same identifier lists) plus {nseq} sequence-shaped ASTs (`,`/`;` skeletons with <= {seq_n} separators over 13 element shapes incl. absent elements, `()`, nested sequences, and every skeleton of up to three more separators over plain variables, assignments and calls); per AST: 5 immutable + 5 mutable iterators against the occurrence list of the AST, every consumption style (for_each/fold, last, count, nth after 0..3 calls of next()) against next(), unknown-identifier errors against the lists (also after renaming all functions, or all variables, to names with namespaces, dots, underscores, upper-case and non-ASCII letters, digits and underscores only (`_0`, `0_`), a trailing `e`, `#`, `$`, with builtins enabled and disabled), and every swap of two variable names / two function names / a name with a fresh name / a name with a name in use in the other namespace applied through the mutable iterators and to the context. Plus scaling families (sums, products, tuples, call arguments, call chains, assignment chains, prefix chains, statement sequences with n identifiers for every n in 1..20 and up to 129 / 1..40 and up to 400). Non-trivial = at least two identifier occurrences; distinct by normalised tree"),
         nontrivial_set: "nontrivial",
         exhaustive: true,
         bound_completed: format!("AST size {k}; sequences with {seq_n} separators"),
